@@ -765,20 +765,33 @@ def gen_apply():
     emit("ApplyGen.v", "\n".join(out) + "\n")
 
 
-KERNELS = [gen_retry, gen_timeout, gen_bool, gen_zip, gen_throttle, gen_proxy, gen_bind, gen_apply]
+KERNELS = [(gen_retry, "RetryGen.v"), (gen_timeout, "TimeoutGen.v"), (gen_bool, "BoolGen.v"), (gen_zip, "ZipGen.v"),
+           (gen_throttle, "ThrottleGen.v"), (gen_proxy, "ProxyGen.v"), (gen_bind, "BindGen.v"), (gen_apply, "ApplyGen.v")]
 
 
 def main():
-    try:
-        for g in KERNELS:
+    """Each kernel file is generated on its own.  A source shape the translator does not recognise fails CLOSED for
+    that kernel only: its Gen file is replaced by one that does not compile, so every model / theorem that imports it
+    stops compiling, while the
+    properties that do not depend on it are unaffected."""
+    failed = []
+    for g, name in KERNELS:
+        try:
             g()
-    except Unsupported as e:
-        print("TRANSLATOR-FAIL-CLOSED: %s" % e)
-        sys.exit(2)
-    except (SyntaxError, IndexError, AttributeError, KeyError, ValueError) as e:
-        print("TRANSLATOR-FAIL-CLOSED: %s: %s" % (type(e).__name__, e))
-        sys.exit(2)
-    print("generated %d kernel files" % len(KERNELS))
+        except Unsupported as e:
+            failed.append((name, "TRANSLATOR-FAIL-CLOSED: %s" % e))
+        except (SyntaxError, IndexError, AttributeError, KeyError, ValueError, TypeError) as e:
+            failed.append((name, "TRANSLATOR-FAIL-CLOSED: %s: %s" % (type(e).__name__, e)))
+    for name, msg in failed:
+        for ext in (".vo", ".vok", ".vos", ".glob"):
+            q = os.path.join(OUT, name[:-2] + ext)
+            if os.path.exists(q):
+                os.remove(q)
+        # a file that exists (the build system needs it for its dependency scan) but cannot compile
+        emit(name, "(* %s *)\nDefinition translator_failed_closed : True := 0.\n" % msg.replace("*)", "* )").replace("(*", "( *")[:400])
+        print("KERNEL-FAILED %s %s" % (name, msg.replace("\n", " ")[:300]))
+    print("generated %d kernel files, %d failed closed" % (len(KERNELS) - len(failed), len(failed)))
+    sys.exit(3 if failed else 0)
 
 
 if __name__ == "__main__":
